@@ -400,24 +400,98 @@ def step_tables(prog: Program, rep: Report) -> None:
         raise AnalysisError("forcing_steps: nested loop over files and frames not found")
     o, inner = nest
     fvar, ivar = unparse(o.target), unparse(inner.target)
-    rep.check(rule, fi.qual, f"loops: {short(o, 40)} / {short(inner, 50)}", unparse(o.iter) == "files" and unparse(inner.iter) == f"range(num_frames[{fvar}])", what_bad="frames must be enumerated file by file, 0..num_frames[file]-1", what_ok="file-major, frame-minor", loc=fi.loc(o))
-    counter = None
-    init = None
+    from ..program import expand_locals
+    from fractions import Fraction
+
+    # trip count of the inner loop = number of frames of the file, whatever temporaries are used
+    odefs = {}
+    for st in o.body:
+        if isinstance(st, ast.Assign) and isinstance(st.targets[0], ast.Name):
+            odefs[st.targets[0].id] = st.value
+    from ..program import _Subst
+    import copy
+
+    def ox(e):  # expand names bound in the outer loop body (nrecords = num_frames[fname])
+        return unparse(_Subst(odefs).visit(copy.deepcopy(e)))
+
+    trip_ok = isinstance(inner.iter, ast.Call) and unparse(inner.iter.func) == "range" and len(inner.iter.args) == 1 and ox(inner.iter.args[0]) == f"num_frames[{fvar}]"
+    rep.check(rule, fi.qual, f"loops: {short(o, 40)} / {short(inner, 50)}", unparse(o.iter) == "files" and trip_ok, what_bad="frames must be enumerated file by file, 0..num_frames[file]-1", what_ok="file-major, frame-minor", loc=fi.loc(o))
+    # loop summary: every integer variable v is  init + a*F (+ b*i at the point of use), F = frames in the
+    # preceding files, i = frame number within the file; the index into `steps` must come out as F + i
+    inits = {}
     for st in fi.node.body:
-        if isinstance(st, ast.Assign) and isinstance(st.value, (ast.Constant, ast.UnaryOp)) and isinstance(st.targets[0], ast.Name):
+        if st is o:
+            break
+        if isinstance(st, ast.Assign) and isinstance(st.targets[0], ast.Name) and isinstance(st.value, (ast.Constant, ast.UnaryOp)):
             try:
-                init = (st.targets[0].id, ast.literal_eval(st.value))
+                v = ast.literal_eval(st.value)
+                if isinstance(v, int) and not isinstance(v, bool):
+                    inits[st.targets[0].id] = v
             except Exception:
                 pass
-            if init and any((increment_of(n) or ("", 0))[0] == init[0] for n in ast.walk(inner)):
-                counter = init
-    incs = [n for n in inner.body if increment_of(n) is not None]
     stepdef = [n for n in inner.body if isinstance(n, ast.Assign) and isinstance(n.value, ast.Subscript) and unparse(n.value.value) == "steps"]
-    ok = counter is not None and len(incs) == 1 and increment_of(incs[0]) == (counter[0], 1) and len(stepdef) == 1
-    if ok:
-        inc_first = inner.body.index(incs[0]) < inner.body.index(stepdef[0])
-        ok = unparse(stepdef[0].value.slice) == counter[0] and ((inc_first and counter[1] == -1) or (not inc_first and counter[1] == 0))
-    rep.check(rule, fi.qual, "running frame counter", ok, what_bad="each frame must take the next entry of `steps`: one counter, starting so that the first frame gets steps[0], advanced once per frame", what_ok="steps[counter], counter advanced once per frame", loc=fi.loc(inner))
+    problems = []
+    summary = {}
+    for name, init in inits.items():
+        k_in = 0
+        before_use = 0
+        conditional = False
+        for pos, st in enumerate(inner.body):
+            inc = increment_of(st)
+            if inc and inc[0] == name:
+                k_in += inc[1]
+                if stepdef and pos < inner.body.index(stepdef[0]):
+                    before_use += inc[1]
+            elif any(isinstance(x, (ast.Assign, ast.AugAssign)) and name in {unparse(t) for t in (x.targets if isinstance(x, ast.Assign) else [x.target])} for x in ast.walk(st)):
+                conditional = True
+        k_out_n = 0
+        k_out_c = 0
+        for st in o.body:
+            if st is inner:
+                continue
+            if isinstance(st, ast.AugAssign) and isinstance(st.op, ast.Add) and unparse(st.target) == name:
+                if ox(st.value) == f"num_frames[{fvar}]":
+                    k_out_n += 1
+                elif isinstance(st.value, ast.Constant) and isinstance(st.value.value, int):
+                    k_out_c += st.value.value
+                else:
+                    conditional = True
+            elif isinstance(st, ast.Assign) and unparse(st.targets[0]) == name:
+                inc = increment_of(st)
+                if inc and inc[0] == name:
+                    k_out_c += inc[1]
+                else:
+                    conditional = True
+            elif any(isinstance(x, (ast.Assign, ast.AugAssign)) and name in {unparse(t) for t in (x.targets if isinstance(x, ast.Assign) else [x.target])} for x in ast.walk(st)):
+                conditional = True
+        if conditional or k_out_c:
+            summary[name] = None
+        else:
+            summary[name] = (Fraction(k_in + k_out_n), Fraction(k_in and 1 or 0) * k_in, Fraction(init + before_use))  # (coef of F, coef of i, constant)
+
+    def affine(e):
+        """-> (a, b, c) meaning a*F + b*i + c, or None."""
+        if isinstance(e, ast.Constant) and isinstance(e.value, int):
+            return (Fraction(0), Fraction(0), Fraction(e.value))
+        if isinstance(e, ast.Name):
+            if e.id == ivar:
+                return (Fraction(0), Fraction(1), Fraction(0))
+            if e.id in summary:
+                return summary[e.id]
+            if e.id in odefs:
+                return None
+            return None
+        if isinstance(e, ast.BinOp) and isinstance(e.op, (ast.Add, ast.Sub)):
+            l, r = affine(e.left), affine(e.right)
+            if l is None or r is None:
+                return None
+            sg = 1 if isinstance(e.op, ast.Add) else -1
+            return tuple(x + sg * y for x, y in zip(l, r))
+        return None
+
+    idx = affine(stepdef[0].value.slice) if len(stepdef) == 1 else None
+    ok = idx == (Fraction(1), Fraction(1), Fraction(0))
+    rep.check(rule, fi.qual, "running frame counter", ok, what_bad=f"each frame must take the next entry of `steps`: the index used is {unparse(stepdef[0].value.slice) if stepdef else None} = {idx[0]}*F + {idx[1]}*i + {idx[2]}" if idx else "each frame must take the next entry of `steps` (index = frames in the preceding files + frame number); the index expression is outside the loop summary", what_ok="index = (frames in preceding files) + (frame number in file)", loc=fi.loc(inner))
     svar = unparse(stepdef[0].targets[0]) if stepdef else "step"
     stores = {unparse(n.targets[0]): unparse(n.value) for n in inner.body if isinstance(n, ast.Assign) and isinstance(n.targets[0], ast.Subscript)}
     rep.check(rule, fi.qual, "file_idx[step] = file, frame_idx[step] = frame number", stores.get(f"file_idx[{svar}]") == fvar and stores.get(f"frame_idx[{svar}]") == ivar, what_bad=f"stores are {stores}", what_ok="same key, same iteration", loc=fi.loc(inner))
